@@ -136,6 +136,7 @@ type Interp struct {
 	timers     []*timerRec
 	now        int64
 	timerFires int
+	realPools  bool // vx.RealPools: sourcegraph/conc pools run from source on the scheduler
 	selectAny  bool // vx.SelectAny: a select with several ready cases forks over all of them
 }
 
@@ -659,7 +660,8 @@ func skipInitPkg(path string) bool {
 	switch path {
 	case "errors", "io", "io/fs", "context", "os", "bytes", "strings", "unicode/utf8", "encoding/binary",
 		"github.com/cockroachdb/pebble/v2/batchrepr", "github.com/cockroachdb/pebble/v2/internal/base",
-		"github.com/cockroachdb/pebble/internal/base", "bufio", "encoding/hex", "strconv", "sort", "slices":
+		"github.com/cockroachdb/pebble/internal/base", "bufio", "encoding/hex", "strconv", "sort", "slices",
+		"github.com/sourcegraph/conc", "github.com/sourcegraph/conc/stream", "github.com/sourcegraph/conc/pool", "github.com/sourcegraph/conc/panics":
 		return false
 	}
 	return true
